@@ -390,7 +390,7 @@ def run(ctx):
             merged[k] = h
         for s in r["samples"][:1]:
             ctx.sample(s, cap=4)
-    for r in core.pmap(work_binary, [(ctx.bins, "%s/%d/b%d" % (ctx.prop, ctx.seed, i), 12 if quick else 300) for i in range(16)]):
+    for r in core.pmap(work_binary, [(ctx.bins, "%s/%d/b%d" % (ctx.prop, ctx.seed, i), 40 if quick else 500) for i in range(16)]):
         ctx.evaluations += r["n"]
         ctx.count("binary_runs", r["n"])
         for sig, why, case in r["bad"]:
